@@ -28,7 +28,7 @@ ASSUMPTIONS = ['no name is a directory in one replica and a file in another (exc
                'file names are non-empty, contain no "/" and are valid UTF-8 (PurePath never yields an empty part)']
 
 NAME_POOL = ['a', 'a.txt', 'a b', 'a-', 'a!', 'ab', 'A', 'B', 'Z', 'b', 'c', 'f', 'g', 'z', '_', '0', '9', 'sub', 'relative',
-             'zzzz.ext', 'b.d', 'b d', '~', 'é', 'aé', '€', 'aa', 'a.', '.a', '-', 'x.y.z']
+             'zzzz.ext', 'b.d', 'b d', '~', 'é', 'aé', '€', 'aa', 'a.', '.a', '-', 'x.y.z', '..old', '...']
 
 
 # ------------------------------------------------------------------ helpers
@@ -496,6 +496,9 @@ def run(ctx):
     corpus = [(wit, None, 'main'), (wit, None, 'func'),
               ([{'c/g': b'x'}, {'a/b/f': b'y', 'c/g': b'x'}, {'c/g': b'x'}], None, 'main'),
               ([{}, {}, {}], None, 'main'),
+              ([{'..old/c.txt': b'one', 'c.txt': b'two', '..old/deep/d.bin': b'three', '.../x': b'four'},
+                {'..old/c.txt': b'one', 'c.txt': b'twO', '..old/deep/d.bin': b'three', '.../x': b'four'},
+                {'..old/c.txt': b'onE', 'c.txt': b'two', '..old/deep/d.bin': b'three', '.../x': b'four'}], None, 'main'),
               ([{'f': b'abc'}, {}, {'f': b'abd'}, {'f': b'abc'}], [['e'], ['e/e2'], [], []], 'main'),
               ([{'a b/x': b'1', 'a.txt': b'2'}, {'a/x': b'3', 'a.txt': b'2'}, {'a.txt': b'9', 'a b/x': b'1'}], None, 'func')]
     check_sync_batch(ctx, corpus)
